@@ -1,6 +1,9 @@
 //! cachelito verification harness (see /verif/DESIGN.md).
+pub mod attrs;
 pub mod c02;
+pub mod c19prog;
 pub mod c20;
+pub mod cli;
 pub mod core_l1;
 pub mod infra;
 pub mod keys;
